@@ -197,6 +197,46 @@ def check_threshold(case):
     return tags
 
 
+def check_huge_batch(case):
+    """One prediction call on more than 2**20 rows: the probability of a row is still the function of (score, group)
+    that a small batch shows, at every position of the batch (block boundaries included)."""
+    to = _fit_to(case)
+    levels = sorted(set(case["scores"]))
+    groups = sorted(set(case["g"]))
+    small_X = np.asarray([[s] for s in levels for _ in groups], dtype=float)
+    small_g = np.asarray([g for _ in levels for g in groups])
+    p_small = _valid_pmf(to._pmf_predict(small_X, sensitive_features=small_g), "small batch")
+    table = {(float(s), str(g)): p for s, g, p in zip(small_X[:, 0], small_g, p_small)}
+    m = case["rows"]
+    rs = np.random.RandomState(case["seed"])
+    idx = rs.randint(0, len(small_g), size=m)
+    # rows around the multiples of 2**20 carry a pair with a large probability wherever one exists
+    best = int(np.argmax(p_small))
+    for k in range(1, m // (1 << 20) + 1):
+        idx[max(0, k * (1 << 20) - 2): k * (1 << 20) + 2] = best
+    Xb, gb = small_X[idx], small_g[idx]
+    p_big = _valid_pmf(to._pmf_predict(Xb, sensitive_features=gb), f"batch of {m} rows")
+    exp = p_small[idx]
+    bad = np.nonzero(np.abs(p_big - exp) > 0)[0]
+    if bad.size:
+        i = int(bad[0])
+        raise PropertyViolation(f"row {i} of a batch of {m} rows (score {Xb[i, 0]}, group {gb[i]}) gets P(1) = {p_big[i]}, "
+                                f"the same (score, group) in a small batch gets {exp[i]}; {bad.size} rows differ, positions {bad[:5].tolist()}")
+    yhat = np.asarray(to.predict(Xb, sensitive_features=gb, random_state=case["seed"] % 1000))
+    det1, det0 = exp == 1.0, exp == 0.0
+    if (yhat[det1] != 1).any() or (yhat[det0] != 0).any():
+        raise PropertyViolation(f"predict on a batch of {m} rows: a row with probability exactly 0 or 1 is not predicted deterministically")
+    return ["nt", "rows>2**20"] if p_small.max() > 0 else []
+
+
+@st.composite
+def _huge_batch_case(draw):
+    c = draw(_to_case())
+    c["rows"] = draw(st.sampled_from([(1 << 20) + 3, (1 << 20) + 1, (1 << 21) + 5, 1 << 20]))
+    c["seed"] = draw(st.integers(0, 2**31 - 1))
+    return c
+
+
 def _near_vertex_sizes(G, j, n0):
     """Smallest n >= n0 (and P) with 0 < P/n - j/G < 0.9e-6: a curve vertex a hair above a grid value."""
     for n in range(n0, n0 + 20000):
@@ -532,6 +572,7 @@ SUBS = [
         floors={"nt": 0.03, "unseen_scores": 0.1}),
     Sub("threshold_near_vertex_grid", check_near_vertex, strategy=_near_vertex_case, quick=48, thorough=800, shards=16, shrink_quick=False,
         floors={"chosen_grid_value_just_below_vertex": 0.3}),
+    Sub("threshold_huge_batch", check_huge_batch, strategy=_huge_batch_case, quick=8, thorough=96, shards=8, shrink_quick=False),
     Sub("eg_pmf_sampling", check_eg, strategy=_eg_case, quick=60, thorough=1500, shards=16, shrink_quick=False,
         floors={"nt": 0.05, "mixture>=2": 0.1}),
     Sub("eg_mixture", check_eg, strategy=_eg_mixture_case, quick=400, thorough=8000, shards=16, shrink_quick=False,
